@@ -191,7 +191,7 @@ impl Rule {
 
         let query = match self.source.query.clone() {
             None => None,
-            Some(source_query) => Request::build_sorted_query(source_query.as_str()),
+            Some(source_query) => Request::build_sorted_query_with_case(source_query.as_str(), ignore_case),
         };
 
         let mut path = utf8_percent_encode(self.source.path.as_str(), URL_ENCODE_SET).to_string();
